@@ -684,7 +684,7 @@ func ruleKEEPWRITEPAGE(p *Program, rep *Report) {
 				continue
 			}
 			n++
-			good := blockFacts(b).every(func(cj conj) bool {
+			good := p.ctxFacts(b).every(func(cj conj) bool {
 				return cj.has(func(a atom) bool {
 					op, x, y, ok := cmpAtom(a)
 					if !ok || op != token.NEQ {
@@ -722,18 +722,41 @@ func ruleFREEALLCONSUMED(p *Program, rep *Report) {
 	rep.Analysed(funcName(fn))
 	// (a) Page.Free called in a loop whose range operand is a load of state.free
 	okLoop := false
-	for _, c := range callsIn(fn, func(cal *ssa.Function, _ ssa.CallInstruction) bool { return cal == pageFree }) {
-		// the freed page comes from tx.Page(id) with id = element of state.free
-		blk := c.Block()
-		for d := blk; d != nil; d = d.Idom() {
-			for _, ins := range d.Instrs {
-				if ia, ok := ins.(*ssa.IndexAddr); ok {
-					if loadedField(ia.X) == free {
+	// fedByFree: x is a load of ackState.free, or a parameter that every call site feeds with one
+	var fedByFree func(g *ssa.Function, x ssa.Value, depth int) bool
+	fedByFree = func(g *ssa.Function, x ssa.Value, depth int) bool {
+		if loadedField(x) == free {
+			return true
+		}
+		if depth > 2 {
+			return false
+		}
+		if pi := paramIndex(g, x); pi >= 0 {
+			sites := p.callIndex().sites[g]
+			if len(sites) == 0 {
+				return false
+			}
+			for _, s := range sites {
+				if pi >= len(s.Common().Args) || !fedByFree(s.Parent(), s.Common().Args[pi], depth+1) {
+					return false
+				}
+			}
+			return true
+		}
+		return false
+	}
+	for g := range staticReach(p, fn) {
+		if fnPkgPath(g) != modPath+"/pq" {
+			continue
+		}
+		for _, c := range callsIn(g, func(cal *ssa.Function, _ ssa.CallInstruction) bool { return cal == pageFree }) {
+			// the freed page comes from tx.Page(id) with id = element of the plan
+			blk := c.Block()
+			for d := blk; d != nil; d = d.Idom() {
+				for _, ins := range d.Instrs {
+					if ia, ok := ins.(*ssa.IndexAddr); ok && fedByFree(g, ia.X, 0) {
 						okLoop = true
 					}
-				}
-				if u, ok := ins.(*ssa.UnOp); ok && loadedField(u) == free {
-					_ = u
 				}
 			}
 		}
